@@ -176,8 +176,69 @@ fn borrowed_case(rep: &mut Report, seed: u64, i: u64) {
     both!("BTreeMap<&str, &str>", [(&s1[..], &s2[..])].into_iter().collect(), BTreeMap<&str, &str>);
 }
 
+/// Sequences / maps of unknown length nested in each other: the native iterator adapters and the
+/// bridge's `collect_seq` / `collect_map` must write the same indefinite items (each with its break).
+struct UnsizedInner<'a>(&'a [u16]);
+impl Serialize for UnsizedInner<'_> {
+    fn serialize<S: serde::Serializer>(&self, s: S) -> Result<S::Ok, S::Error> {
+        s.collect_seq(self.0.iter().filter(|_| true))
+    }
+}
+struct UnsizedOuter<'a>(&'a [Vec<u16>]);
+impl Serialize for UnsizedOuter<'_> {
+    fn serialize<S: serde::Serializer>(&self, s: S) -> Result<S::Ok, S::Error> {
+        s.collect_seq(self.0.iter().filter(|_| true).map(|v| UnsizedInner(v)))
+    }
+}
+struct UnsizedMapOuter<'a>(&'a [Vec<u16>]);
+impl Serialize for UnsizedMapOuter<'_> {
+    fn serialize<S: serde::Serializer>(&self, s: S) -> Result<S::Ok, S::Error> {
+        s.collect_map(self.0.iter().filter(|_| true).enumerate().map(|(k, v)| (k as u8, UnsizedInner(v))))
+    }
+}
+
+fn unsized_case(rep: &mut Report, seed: u64, i: u64) {
+    use minicbor::encode::{ArrayIter, MapIter};
+    let mut rng = Rng::derive("c18/unsized", seed, 0, i);
+    let v: Vec<Vec<u16>> = (0..rng.below(4)).map(|_| (0..rng.below(4)).map(|_| rng.next_u32() as u16).collect()).collect();
+    let rp = vec!["c18".into(), "--seed".into(), seed.to_string(), "--replay".into(), "unsized".into(), i.to_string()];
+    rep.eval();
+    let r = mon::guarded(|| {
+        let native_seq = minicbor::to_vec(ArrayIter::new(v.iter().filter(|_| true).map(|x| ArrayIter::new(x.iter().filter(|_| true))))).map_err(|e| e.to_string())?;
+        let bridge_seq = minicbor_serde::to_vec(UnsizedOuter(&v)).map_err(|e| e.to_string())?;
+        if native_seq != bridge_seq {
+            return Err(format!("nested unknown-length sequences: native {} vs bridge {}", hex(&native_seq[..native_seq.len().min(60)]), hex(&bridge_seq[..bridge_seq.len().min(60)])));
+        }
+        let native_map = minicbor::to_vec(MapIter::new(v.iter().filter(|_| true).enumerate().map(|(k, x)| (k as u8, ArrayIter::new(x.iter().filter(|_| true)))))).map_err(|e| e.to_string())?;
+        let bridge_map = minicbor_serde::to_vec(UnsizedMapOuter(&v)).map_err(|e| e.to_string())?;
+        if native_map != bridge_map {
+            return Err(format!("unknown-length map of unknown-length sequences: native {} vs bridge {}", hex(&native_map[..native_map.len().min(60)]), hex(&bridge_map[..bridge_map.len().min(60)])));
+        }
+        // both decoders read the common bytes back to the same value
+        let a: Vec<Vec<u16>> = minicbor::decode(&native_seq).map_err(|e| format!("native decode: {}", e))?;
+        let b: Vec<Vec<u16>> = minicbor_serde::from_slice(&bridge_seq).map_err(|e| format!("bridge decode: {}", e))?;
+        if a != v || b != v {
+            return Err("decoded value differs".to_string());
+        }
+        Ok(native_seq)
+    });
+    match r {
+        Err(p) => viol(rep, "unknown-length nesting", "panic", p.message, &[], &rp),
+        Ok(Err(e)) => viol(rep, "unknown-length nesting", "bytes-differ", e, &[], &rp),
+        Ok(Ok(b)) => {
+            rep.seen(hash_mix(99, fnv64(&b)));
+            rep.count("nested unknown-length containers: native and bridge agree")
+        }
+    }
+}
+
 pub fn run(a: &Args, rep: &mut Report) {
     let n: u64 = if a.thorough() { 600_000 } else { 80_000 };
+    for i in 0..n / 8 {
+        if a.mine(i) {
+            unsized_case(rep, a.seed, i)
+        }
+    }
     for i in 0..n / 8 {
         if a.mine(i) {
             borrowed_case(rep, a.seed, i)
@@ -196,6 +257,9 @@ pub fn replay(a: &Args, rep: &mut Report) {
     let i: u64 = a.replay[1].parse().unwrap();
     if want == "borrowed" {
         return borrowed_case(rep, a.seed, i);
+    }
+    if want == "unsized" {
+        return unsized_case(rep, a.seed, i);
     }
     macro_rules! m {
         ($t:ty) => {
